@@ -24,6 +24,7 @@ LINES = {
     'L_diagonal': (0j, 3 + 4j),
     'L_shallow': (-2 + 1j, 5 + 1.125j),
     'L_nondyadic': (0.1 + 0.2j, 0.7 - 0.3j),
+    'L_tiny': (1 + 1j, 1.00003 + 1.00004j),        # length 5e-5
 }
 
 QUADS = {
@@ -37,6 +38,7 @@ QUADS = {
     'Q_elevated_line': (0j, 2 + 1j, 4 + 2j),            # a == 0 exactly
     'Q_nondyadic': (0.1 + 0.1j, 0.4 + 0.9j, 0.8 + 0.2j),
     'Q_closed_loop': (0j, 3 + 4j, 0j),
+    'Q_almost_line': (0j, 2.00002 + 1.00001j, 4 + 2j),      # straight, traversed almost uniformly (|a| ~ 4e-5)
 }
 
 CUBICS = {
@@ -55,6 +57,7 @@ CUBICS = {
     'C_monotone': (0j, 1 + 0.5j, 2 + 1.5j, 3 + 3j),
     'C_nondyadic': (0.1 + 0.3j, 0.5 + 1.1j, 1.3 + 0.9j, 1.7 - 0.2j),
     'C_axis_line_shaped': (0j, 1 + 0j, 2 + 0j, 3 + 0j),
+    'C_nearly_quadratic': (0j, 2.000001 + 4j, 4 + 4j, 6 + 0j),   # leading coefficient 3e-6 (tiny but significant)
 }
 
 # (start, radius, rotation, large_arc, sweep, end)
@@ -69,6 +72,8 @@ ARCS = {
     'A_exact_fit_semicircle': (0j, 2 + 2j, 0, 0, 1, 4 + 0j),
     'A_rot400': (0j, 4 + 2j, 400, 0, 0, 3 - 2j),
     'A_negative_radius': (0j, -3 - 2j, -725, 1, 1, 2 + 3j),
+    'A_rot180_large': (2 + 0j, 2 + 1j, 180, 1, 1, -1j),       # rotation an odd multiple of 180: not the unrotated ellipse's frame
+    'A_rot360': (0j, 3 + 1j, 360, 0, 1, 4 + 1j),
 }
 
 
